@@ -34,7 +34,7 @@ ASSUMPTIONS = [
 def _case(draw, n_max):
     n = draw(st.sampled_from([5, 4, 6, 3, n_max, 2, 1, 0]))
     mt = draw(gen.st_mtree(indices=list(range(n)), outliers=True, max_outliers=3))
-    return dict(mtree=mt, sib=draw(st.lists(st.integers(0, 7), min_size=1, max_size=4)))
+    return dict(mtree=mt, sib=draw(st.lists(st.integers(0, 7), min_size=1, max_size=4)), rep=draw(gen.st_repr()))
 
 
 def strategy(ctx):
@@ -58,7 +58,12 @@ def evaluate(case):
     n = len(mt.all_data())
     values = {i: np.zeros((1, 2)) for i in mt.all_data()}
     data = gen.make_datapoints(values)
-    tree = to_tree_grid(mt, data, (1, 2), sibling_perm=case.get("sib"))
+    rep = case.get("rep")
+    if rep is None:
+        tree = to_tree_grid(mt, data, (1, 2), sibling_perm=case.get("sib"))
+    else:
+        # the same tree reached through another construction history (SMC-style, grafted, serialised, relabelled)
+        tree = gen.build_repr(mt, data, (1, 2), dict(rep, sib=case.get("sib") or rep.get("sib")))
     L = linear_extensions(mt)
     if len(L) != count_linear_extensions_formula(mt):
         from vp.common import HarnessError
@@ -113,4 +118,6 @@ def evaluate(case):
         classes.append("branching")
     if mt.k == 0:
         classes.append("no-clones")
+    if case.get("rep"):
+        classes.append("rep:" + case["rep"]["style"] + ("+relabel" if case["rep"].get("relabel") else ""))
     return Outcome(nontrivial=len(L) >= 2, classes=tuple(classes), key=mt.jkey(), info=dict(mtree=case["mtree"], n_orders=len(L)), weight=len(res))
